@@ -256,7 +256,7 @@ class Ctx:
             args.append("-race")
         if os.environ.get("VERIF_COVER"):
             # opt-in measurement (bin/coverage): statement coverage of the library under the harness
-            args += ["-cover", "-coverpkg=all"]
+            args += ["-cover", "-covermode=atomic", "-coverpkg=all"]
         args.append("./cmd/" + cmd)
         t0 = time.time()
         p = subprocess.run(args, cwd=HARNESS, env=env, capture_output=True, text=True)
@@ -453,6 +453,7 @@ def validate_trace(ctx, module, cfg, name, path, timeout=600, label=None, consts
                   allow_violation=True, consts=consts, dfs=dfs, count_stats=False)
     ctx.states += res.distinct
     ctx.transitions += res.generated
+    ctx.last_trace_log = res.log      # for trace specifications that print named deviations
     if res.ok:
         return True, None, None
     log = open(res.log).read()
